@@ -16,6 +16,7 @@ import (
 //   - an earlier sibling `if <cond> { return / continue / panic / log.Fatal }` (the negation holds afterwards),
 //   - strings.HasPrefix(x, "lit") in an enclosing condition (len(x) >= len(lit)),
 //   - x is the result of strings.Split / bytes.Split (at least one element).
+//
 // A site whose bound does not follow is a finding: "depends on the shape of data nothing here checks".
 func runG15(r *Repo, rep *Report) {
 	sites := 0
